@@ -54,6 +54,15 @@ def main():
                     expect = line.split(":", 1)[1].strip()
             work.append((prop, patch, expect))
     bad = 0
+    # a mutant only counts as caught if the unchanged tree passes the same check
+    for prop in sorted(set(w[0] for w in work)):
+        env = dict(ENV, RELIC_REPO=REPO, RELIC_OUT=tempfile.mkdtemp(prefix="relic-base-"))
+        r = subprocess.run([os.path.join(VERIF, "bin", "relicvc"), "check", prop], capture_output=True, text=True, env=env, cwd=VERIF)
+        shutil.rmtree(env["RELIC_OUT"], ignore_errors=True)
+        if r.returncode != 0:
+            print("BASELINE %s does not pass on the unchanged tree (exit %d): nothing below can be trusted" % (prop, r.returncode))
+            print("    " + "\n    ".join((r.stdout + r.stderr).strip().splitlines()[-5:]))
+            bad += 1
     with concurrent.futures.ThreadPoolExecutor(max_workers=jobs) as ex:
         for prop, patch, verdict, out, dt in ex.map(lambda w: run_one(*w), work):
             print("%-8s %-60s %s (%.1fs)" % (prop, os.path.relpath(patch, VERIF), verdict, dt))
